@@ -140,9 +140,10 @@ func openLog(path string) *os.File {
 // harness scheduler callback makes progress) ----
 
 type vchan struct {
-	cap    int
-	q      []value
-	closed bool
+	cap      int
+	q        []value
+	closed   bool
+	recvWait int // receivers blocked in a receive (a send to them does not block)
 }
 
 func chanSend(fr *frame, c value, v value) {
@@ -157,8 +158,8 @@ func chanSend(fr *frame, c value, v value) {
 	fr.i.px.onSync(fr, "send")
 	// an unbuffered channel (or a full buffered one) needs a receiver: the
 	// harness scheduler must have drained it in the callback
-	if len(ch.q) > ch.cap {
-		fr.i.px.blocked(fr, "chan send", func() bool { return len(ch.q) <= ch.cap })
+	if len(ch.q) > ch.cap+ch.recvWait {
+		fr.i.px.blocked(fr, "chan send", func() bool { return len(ch.q) <= ch.cap+ch.recvWait })
 	}
 }
 
@@ -169,7 +170,11 @@ func chanRecv(fr *frame, instr *ssa.UnOp, c value) value {
 	}
 	elemT := instr.X.Type().Underlying().(*types.Chan).Elem()
 	if len(ch.q) == 0 && !ch.closed {
-		fr.i.px.blocked(fr, "chan recv", func() bool { return len(ch.q) > 0 || ch.closed })
+		ch.recvWait++
+		func() {
+			defer func() { ch.recvWait-- }()
+			fr.i.px.blocked(fr, "chan recv", func() bool { return len(ch.q) > 0 || ch.closed })
+		}()
 	}
 	var v value
 	ok := false
